@@ -93,7 +93,11 @@ theorem goto_outKept (c : ECfg S) : ∀ (fuel : Nat) (spec : String) (l : Live S
   | succ fuel ih =>
     intro spec l
     have hbody : ∀ pid l, OutKept (gotoBody c (goto c fuel) pid l).1 l := by
-      intro pid l; unfold gotoBody; exact gotoLoop_outKept c _ ih _ _ _ _ _ _
+      intro pid l; unfold gotoBody
+      have hl := gotoLoop_outKept c _ ih (c.story.passages.length + 1) [] pid [] [] l
+      unfold OutKept at hl ⊢
+      rw [keepCurOnError_out]
+      exact hl
     unfold goto
     split
     · exact .refl _
